@@ -103,7 +103,7 @@ def gen_schema(c, opts=None):
         "max_objects": 4, "max_interfaces": 2, "max_unions": 2, "max_enums": 2,
         "max_inputs": 2, "max_scalars": 1, "mutation": True, "subscription": False,
         "odd_names": False, "args": True, "custom_roots": True, "query_directive": True,
-        "schema_directive": True,
+        "schema_directive": True, "qd_list_arg": False,
     }
     o.update(opts or {})
     schema = {"types": {}, "roots": {}, "directives": {}}
@@ -258,7 +258,8 @@ def gen_schema(c, opts=None):
     if o["query_directive"]:
         schema["directives"]["qd"] = {
             # same argument name as field arguments (a0..a2) on purpose: per-node context must not leak between them
-            "args": {"a0": {"type": "Int"}},
+            # (with qd_list_arg also a list argument, so that variables can sit *inside* a directive argument's literal)
+            "args": dict({"a0": {"type": "Int"}}, **({"a1": {"type": "[Int]"}} if o["qd_list_arg"] else {})),
             "locations": ["FIELD", "FRAGMENT_SPREAD", "INLINE_FRAGMENT", "QUERY", "MUTATION", "SUBSCRIPTION", "FRAGMENT_DEFINITION"],
         }
     if o["schema_directive"] and c.maybe(50):
@@ -560,6 +561,8 @@ class DocGen:
             args = []
             if c.maybe(50):
                 args = [["a0", self.value(ty("Int"), used)]]
+            if "a1" in self.schema["directives"]["qd"]["args"] and c.maybe(60):
+                args.append(["a1", self.value(ty("[Int]"), used)])
             out.append({"name": "qd", "args": args})
             self.stat("custom_directive_" + location)
         return c.shuffle(out)
